@@ -83,7 +83,7 @@ func vfBuildMemMap(ne int, maxFrames uint64) *vfMemMap {
 func (m *vfMemMap) available(i int) bool { return m.typ[i] == 1 }
 
 // firstFrame/frameCount: whole frames of entry i (start rounded up, end rounded down).
-func (m *vfMemMap) firstFrame(i int) uint64 { return (m.addr[i] + 4095) >> 12 }
+func (m *vfMemMap) firstFrame(i int) uint64   { return (m.addr[i] + 4095) >> 12 }
 func (m *vfMemMap) endFrameExcl(i int) uint64 { return (m.addr[i] + m.length[i]) >> 12 }
 func (m *vfMemMap) frameCount(i int) uint64 {
 	s, e := m.firstFrame(i), m.endFrameExcl(i)
